@@ -1,4 +1,13 @@
 CHECKS = {
+ "C05": {
+  "text": "Generated group/algebra pairs (regime tables, both dtypes, broadcastable batch shapes) against float64 references built from "
+          "the matrix Lie algebra: Adj/AdjT vs Ad(M) a, the two defining identities, every spelling of the retraction (Retr, +, add, "
+          "pp.add, add_, extra junk components, alpha) vs reference-Exp(a) M(X), algebra + tensor, Jinvp vs phi1(ad Log X)^-1 p, Jr vs "
+          "phi1(-ad x) and its defining first-order property. Exploration.",
+  "design_ref": "DESIGN.md section 3, C05",
+  "note": "References: numpy matrix-Lie-algebra adjoints, augmented-matrix phi-function, mpmath Exp; Sim3 Jinvp allowed the documented Bernoulli truncation.",
+  "technique": "property-based testing: Hypothesis generators against reference models (matrix Lie algebra / phi-functions)",
+ },
  "C02": {
   "text": "Generated valid group elements (both quaternion hemispheres, |w|~0, |v|~0, angle dense near 0 and pi, scales e^+-8 and "
           "1+-2^k eps, translations to 1e3; both dtypes; batches) checked for: reference-Exp(Log X)==X as matrices, |Log X rotation|<=pi, "
